@@ -12,7 +12,7 @@ from vlib.core import Violation
 
 ID = 'C10'
 LEVEL = 'exploration'
-RULE = ('One instance with 1-2 AsyncServiceBrowsers on disjoint types (delay 1/2/10/60 s, question type default/QU/QM) learns pointer '
+RULE = ('One instance with 1-2 AsyncServiceBrowsers on disjoint types, or one browser on two or three types - among them a type and one of its subtypes, whose pointers name the same instances - (delay 1/2/10/60 s, question type default/QU/QM) learns pointer '
         'records through injected responses: TTL in {1 (floored), 1125, 1200, 2000, 4500, 7200, 36000}, learned in any order, '
         'refreshed, re-cased, withdrawn or left to expire; clock steps are absolute, relative to a live record\'s lifetime '
         '(75/85/95 % +- a few ms), relative to the scheduler\'s armed wake-up (just before/after), or - for refreshes with another TTL - '
@@ -34,20 +34,27 @@ ASSUMPTIONS = [
 ]
 BUDGET = {'quick': {'examples': 1500}, 'thorough': {'examples': 12000, 'shards': 16}}
 EPS = 0.003
-TYPES = ['_a._tcp.local.', '_b._tcp.local.']
+# the third type is a subtype of the first: its pointer records name instances of the first type, so one instance can be known
+# through two pointer records (type and subtype) of one browser
+TYPES = ['_a._tcp.local.', '_b._tcp.local.', '_s._sub._a._tcp.local.']
+INST_TYPE = [0, 1, 0]
 TTLS = [1, 1125, 1200, 2000, 4500, 7200, 36000]
 PEER = ('10.0.0.9', 5353)
 
 
 def alias(ti: int, ii: int, sp: int) -> str:
-    return (('Inst%d' if sp else 'inst%d') % ii) + '.' + TYPES[ti]
+    return (('Inst%d' if sp else 'inst%d') % ii) + '.' + TYPES[INST_TYPE[ti]]
 
 
-learn_st = st.fixed_dictionaries({'op': st.just('learn'), 'type': st.integers(0, 1), 'inst': st.integers(0, 3), 'sp': st.sampled_from([0, 0, 0, 1]),
+def btypes(b: Dict[str, Any]) -> List[int]:
+    return list(b['types']) if 'types' in b else [b['type']]
+
+
+learn_st = st.fixed_dictionaries({'op': st.just('learn'), 'type': st.sampled_from([0, 0, 1, 1, 2]), 'inst': st.integers(0, 3), 'sp': st.sampled_from([0, 0, 0, 1]),
                                   'ttl': st.sampled_from(TTLS + [0]), 'repeat': st.sampled_from([0, 0, 0, 1, 2])})
 # refresh aimed so that the 75 % point of the refreshed record falls at (frac x delay) from a rung of the record's current schedule:
 # inside, at the edge of, and just outside the window in which the scheduler keeps the entry it already has
-aligned_st = st.fixed_dictionaries({'op': st.just('learn'), 'type': st.integers(0, 1), 'inst': st.integers(0, 1), 'sp': st.sampled_from([0, 0, 0, 1]),
+aligned_st = st.fixed_dictionaries({'op': st.just('learn'), 'type': st.sampled_from([0, 0, 1, 1, 2]), 'inst': st.integers(0, 1), 'sp': st.sampled_from([0, 0, 0, 1]),
                                     'ttl': st.sampled_from(TTLS), 'repeat': st.sampled_from([0, 0, 0, 1]),
                                     'align': st.fixed_dictionaries({'pct': st.sampled_from([75, 75, 85, 95]),
                                                                     'frac': st.sampled_from([-1.2, -1.0, -0.5, 0.0, 0.3, 1.0, 1.2])})})
@@ -62,9 +69,13 @@ tick_st = st.one_of(
 
 @st.composite
 def scenario(draw) -> Dict[str, Any]:
-    nb = draw(st.sampled_from([1, 1, 2]))
-    browsers = [{'type': i, 'delay': draw(st.sampled_from([1, 2, 10, 60])), 'qtype': draw(st.sampled_from([None, None, 'QU', 'QM']))}
-                for i in range(nb)]
+    # one browser per type, or one browser for several types - among them a type together with one of its subtypes, whose pointer
+    # records name the same instances
+    # (a type and its subtype are never given to two different browsers: a browser of the parent type also acts on the subtype's
+    # pointers, so both would send queries for the subtype and the per-browser attribution of queries would be ambiguous)
+    layout = draw(st.sampled_from([[[0]], [[0]], [[0], [1]], [[0], [1]], [[0, 1]], [[0, 2]], [[0, 2]], [[0, 1, 2]]]))
+    browsers = [{'types': ts, 'delay': draw(st.sampled_from([1, 2, 10, 60])), 'qtype': draw(st.sampled_from([None, None, 'QU', 'QM']))}
+                for ts in layout]
     ops = draw(st.lists(st.one_of(learn_st, learn_st, tick_st, aligned_st), min_size=1, max_size=12))
     if draw(st.booleans()):
         # the shape the suite lacks: a shorter-lived record learned while the timer is armed for a longer-lived one
@@ -72,6 +83,14 @@ def scenario(draw) -> Dict[str, Any]:
                {'op': 'learn', 'type': 0, 'inst': 0, 'sp': 0, 'ttl': draw(st.sampled_from([4500, 7200, 36000]))},
                {'op': 'tick', 'ms': draw(st.sampled_from([1000, 40000, 600000]))},
                {'op': 'learn', 'type': 0, 'inst': 1, 'sp': 0, 'ttl': draw(st.sampled_from([1, 1200, 2000]))}] + ops
+    if any(0 in b['types'] and 2 in b['types'] for b in browsers) and draw(st.booleans()):
+        # one instance learned through the pointer of its type and, some time later, through the pointer of a subtype (or the other
+        # way round), with equal or different TTLs: two records, two lifetimes, two refresh ladders
+        a, bb = draw(st.sampled_from([(0, 2), (2, 0)]))
+        ops = [{'op': 'tick', 'ms': draw(st.sampled_from([15000, 20000]))},
+               {'op': 'learn', 'type': a, 'inst': 0, 'sp': 0, 'ttl': draw(st.sampled_from([1, 1200, 4500])), 'repeat': 0},
+               {'op': 'tick', 'ms': draw(st.sampled_from([0, 500, 30000, 900000, 1000000]))},
+               {'op': 'learn', 'type': bb, 'inst': 0, 'sp': draw(st.sampled_from([0, 0, 1])), 'ttl': draw(st.sampled_from([1, 1200, 4500])), 'repeat': 0}] + ops
     # the instance may itself advertise an instance of the first browsed type (it hears its own announcements and answers, so the
     # browser starts with that pointer cached and keeps refreshing it); only then does it take note of other hosts' questions for
     # that type: a QM question heard shortly before the browser's first (QU) query, and - for a browser forced to QU - at any point
@@ -113,7 +132,8 @@ class Exec:
         host = w.add_host('B')
         zc = host.zc
         await zc.async_wait_for_start()
-        t_own = self.case['browsers'][0]['type']
+        t_own = btypes(self.case['browsers'][0])[0]
+        delay_of = {ti: b['delay'] for b in self.case['browsers'] for ti in btypes(b)}
         own_name = 'own.' + TYPES[t_own]
         run = self
 
@@ -160,7 +180,8 @@ class Exec:
         for b in self.case['browsers']:
             qt = {None: None, 'QU': DNSQuestionType.QU, 'QM': DNSQuestionType.QM}[b['qtype']]
             lst = sim.RecListener(w)
-            self.browsers.append(AsyncServiceBrowser(zc, TYPES[b['type']], listener=lst, delay=b['delay'] * 1000, question_type=qt))
+            ts = [TYPES[ti] for ti in btypes(b)]
+            self.browsers.append(AsyncServiceBrowser(zc, ts if len(ts) > 1 else ts[0], listener=lst, delay=b['delay'] * 1000, question_type=qt))
         msg_id = 1
         for op in self.case['ops']:
             now = w.clock.t
@@ -184,13 +205,13 @@ class Exec:
                     if target > w.clock.t:
                         await asyncio.sleep(target - w.clock.t)
             elif kind == 'learn':
-                if op['type'] >= len(self.case['browsers']):
+                if op['type'] not in delay_of:
                     continue
                 key = (op['type'], op['inst'])
                 if op.get('align') and key in self.live:
                     v0 = self.live[key]
                     rung = v0['c'] + v0['T'] * op['align']['pct'] / 100.0
-                    target = rung + op['align']['frac'] * self.case['browsers'][op['type']]['delay'] - 0.75 * max(op['ttl'], 1125)
+                    target = rung + op['align']['frac'] * delay_of[op['type']] - 0.75 * max(op['ttl'], 1125)
                     if target > w.clock.t:
                         await asyncio.sleep(target - w.clock.t)
                         self.stats['aligned_refresh'] = self.stats.get('aligned_refresh', 0) + 1
@@ -212,7 +233,7 @@ class Exec:
                     if old is not None:
                         old['u'] = now
                         a = old['c'] + 0.75 * old['T']
-                        if any(abs(now - (a + k * 0.1 * old['T'])) <= self.case['browsers'][op['type']]['delay'] for k in range(3)):
+                        if any(abs(now - (a + k * 0.1 * old['T'])) <= delay_of[op['type']] for k in range(3)):
                             self.stats['refresh_in_window'] += 1
                     v = {'type': op['type'], 'key': key, 'c': now, 'T': T, 'u': None, 'sp': op['sp'],
                          'recased': old is not None and old['sp'] != op['sp']}
@@ -242,28 +263,34 @@ def check(case: Dict[str, Any]) -> Dict[str, Any]:
     nontrivial = False
     classes: List[str] = []
     for bi, b in enumerate(case['browsers']):
-        tname = TYPES[b['type']].lower()
+        tnames = [TYPES[ti].lower() for ti in btypes(b)]
         delay = float(b['delay'])
         instants: List[Tuple[float, bool]] = []
+        per_type: Dict[int, List[float]] = {ti: [] for ti in btypes(b)}
         for e in trace:
             m = sim.decode_trace_entry(e)
             if m is None or m['flags'] & 0x8000 or m['ns'] or e['t'] < t0:
                 continue          # responses, the instance's own registration probes, anything before the browsers exist
-            qs = [q for q in m['qd'] if wire.name_text(q['name']).lower() == tname and q['type'] == 12]
+            qs = [q for q in m['qd'] if wire.name_text(q['name']).lower() in tnames and q['type'] == 12]
             if qs:
                 if not instants or abs(instants[-1][0] - e['t']) > 1e-9:
                     instants.append((e['t'], bool(qs[0]['cls'] & 0x8000)))
+                for q in qs:
+                    ti = btypes(b)[tnames.index(wire.name_text(q['name']).lower())]
+                    if not per_type[ti] or abs(per_type[ti][-1] - e['t']) > 1e-9:
+                        per_type[ti].append(e['t'])
         times = [t for t, _ in instants]
-        det: Dict[str, Any] = {'browser': bi, 'delay': delay, 'queries': [rel(t) for t in times][:40],
+        det: Dict[str, Any] = {'browser': bi, 'types': btypes(b), 'delay': delay, 'queries': [rel(t) for t in times][:40],
                                'versions': [(v['key'], rel(v['c']), v['T'], None if v['u'] is None else rel(v['u']))
-                                            for v in ex.versions if v['type'] == b['type']][:12]}
+                                            for v in ex.versions if v['type'] in btypes(b)][:12]}
         # ---- start-up ---------------------------------------------------------------------------------
         j = draws[bi]['v'] / 1000.0 if bi < len(draws) else None
         if j is None or not (0.020 <= j <= 0.120):
             raise Violation('first query delay was not drawn from 20-120 ms', dict(det, draw=draws[:2]), tag='startup-jitter')
         want = [t0 + j, t0 + j + 1, t0 + j + 5, t0 + j + 14]
         startup = [t for t in times if t <= t0 + j + 14 + EPS]
-        if len(startup) != 4 or any(abs(a - bb) > EPS for a, bb in zip(startup, want)):
+        if len(startup) != 4 or any(abs(a - bb) > EPS for a, bb in zip(startup, want)) or \
+                any([t for t in per_type[ti] if t <= t0 + j + 14 + EPS] != startup for ti in per_type):
             raise Violation('start-up queries are not at j, j+1, j+5, j+14 s', dict(det, want=[rel(x) for x in want]), tag='startup-schedule')
         qu_flags = [qu for _, qu in instants[:4]]
         exp_first = {None: True, 'QU': True, 'QM': False}[b['qtype']]
@@ -278,9 +305,10 @@ def check(case: Dict[str, Any]) -> Dict[str, Any]:
                 raise Violation('successive queries of one browser closer than the configured delay',
                                 dict(det, pair=(rel(x), rel(y))), tag='spacing')
         # ---- (b) liveness ladders -----------------------------------------------------------------------
-        vs = [v for v in ex.versions if v['type'] == b['type']]
-        for v in vs:
+        vs_all = [v for v in ex.versions if v['type'] in btypes(b)]
+        for v in vs_all:
             c, T = v['c'], v['T']
+            times = per_type[v['type']]      # the queries that ask for this record's type
             end = min(c + T, v['u'] if v['u'] is not None else c + T, ex.t_end)     # nothing is required past the end of the run
             step = 0.1 * T
 
@@ -298,13 +326,20 @@ def check(case: Dict[str, Any]) -> Dict[str, Any]:
                                     dict(det, record=v['key'], learned=rel(c), ttl=T, ends=rel(end), first_due=rel(first),
                                          recased=v['recased']), tag='ladder-missing')
         # ---- (c) no stale schedule ---------------------------------------------------------------------
-        for t in post:
+        for ti in btypes(b):
+          vs = [v for v in vs_all if v['type'] == ti]
+          for t in [x for x in per_type[ti] if x > t0 + j + 14 + EPS]:
             # closed at a refresh/withdrawal; an attempt due before expiry may be up to one delay late, i.e. past the expiry
             if not any(v['c'] + 0.75 * v['T'] - delay - EPS <= t <= (v['u'] if v['u'] is not None and v['u'] < v['c'] + v['T']
                                                                     else v['c'] + v['T'] + delay) + EPS for v in vs):
                 raise Violation('query sent outside the refresh zone of every record version (stale schedule)',
-                                dict(det, t=rel(t)), tag='stale-schedule')
+                                dict(det, t=rel(t), type=ti), tag='stale-schedule')
         # classes
+        vs = vs_all
+        if len(btypes(b)) > 1:
+            classes.append('multi-type-browser')
+            if 0 in btypes(b) and 2 in btypes(b) and {v['key'][1] for v in vs if v['type'] == 0} & {v['key'][1] for v in vs if v['type'] == 2}:
+                classes.append('instance-known-through-type-and-subtype-pointer')
         firsts = sorted((v['c'] + 0.75 * v['T'], v['c']) for v in vs)
         if any(a[1] > bb[1] for a, bb in zip(firsts, firsts[1:])) and len({v['T'] for v in vs}) > 1:
             nontrivial = True
